@@ -15,7 +15,7 @@ PLAN = dict(
              "lin_check (ordered linear discipline against the declared signatures) and run_named(input) = run_linear(output) on up to four "
              "argument tuples.  A case is non-trivial (`nt`) when the linearized program contains at least one inserted substitution; "
              "distinct = distinct input programs.  Histogram tags: src-file/src-gen, size0-4 (statements <10,<40,<150,<600,more), create/nocreate, "
-             "switch/noswitch, ctx0-4 (longest context <5,<10,<20,<40,more), runs<k> (argument tuples on which both machines were compared), "
+             "switch/noswitch, ctx0-4 (longest context <5,<10,<20,<40,more), exact/noexact (some call/let/switch/create/invoke needed no substitution: the already-right branch), runs<k> (argument tuples on which both machines were compared), "
              "nofuel (the named machine ran out of 20000 steps on some tuple), pre-fail (input outside the hypotheses; only the correspondence is judged)",
         explanation="theorems (Props/C05.v, all closed under the global context): filter_by_set is a permutation of the kept bindings and keeps surviving "
                     "positions; freshen yields distinct ids and keeps kinds/types/first occurrences; lin_check is sound for the inductive discipline lin_wt; "
